@@ -49,3 +49,20 @@ pub fn exp_spec() -> BoxedStrategy<ExpSpec> {
 pub fn opt_exp_spec() -> BoxedStrategy<Option<ExpSpec>> {
     prop_oneof![2 => Just(None), 3 => exp_spec().prop_map(Some)].boxed()
 }
+
+pub fn arb_exp(u: &mut arbitrary::Unstructured) -> ExpSpec {
+    let sel: u8 = u.arbitrary().unwrap_or(0);
+    match sel % 5 {
+        0 => ExpSpec::Never,
+        1 | 2 => ExpSpec::Height(u.int_in_range(-2i32..=8).unwrap_or(0)),
+        _ => ExpSpec::Time(u.int_in_range(-10i64..=60).unwrap_or(0)),
+    }
+}
+
+pub fn arb_opt_exp(u: &mut arbitrary::Unstructured) -> Option<ExpSpec> {
+    if u.arbitrary::<u8>().unwrap_or(0) % 5 < 2 {
+        None
+    } else {
+        Some(arb_exp(u))
+    }
+}
